@@ -255,7 +255,7 @@ def run_shard(shard, rec):
         return
     rng = random.Random(f"{shard.get('seed', 0)}:C14:{shard['name']}")
     thorough = shard.get("tier") == "thorough"
-    for base in _strict.base_cases(shard, rng):
+    for base in _strict.base_cases(shard, rng, hostile=rec):
         check(base, rec)
         bref = base.ref()
         if bref.outcome.kind != "ok":
